@@ -19,11 +19,18 @@ var engines = []engine{
 		StubTest: []string{"internal/bgp/native"},
 	},
 	{
+		Name: "gfrrk8s", TestPkg: "internal/k8s/controllers", TestName: "TestVerifGfrrk8s", SimPkgs: gfrrk8sPkgs, Rules: "r1,r2,r3,r5",
+		Harness:  []string{"internal/k8s/controllers"},
+		StubTest: []string{"internal/k8s/controllers"},
+	},
+	{
 		Name: "gfrr", TestPkg: "internal/bgp/frr", TestName: "TestVerifGfrr", SimPkgs: gfrrPkgs, Rules: "r1,r2,r3,r4,r5", Subst: "harness/frr_subst.json",
 		Harness:  []string{"internal/bgp/frr"},
 		StubTest: []string{"internal/bgp/frr"},
 	},
 }
+
+var gfrrk8sPkgs = []string{"internal/k8s/controllers", "internal/bgp/frrk8s"}
 
 var gfrrPkgs = []string{"internal/bgp/frr"}
 
@@ -111,6 +118,31 @@ var gfrrComponents = map[string]string{
 	"FRR":                                                                                                                    "frrinterp: interpreter of the emitted subset (network, prefix-list, route-map, on-match next); anything else is reported as trouble (exit 2)",
 }
 
+var gfrrk8sComponents = map[string]string{
+	"frrk8s.NewSessionManager, NewSession/Set/Close/SyncBFDProfiles, updateConfig":                  "real",
+	"controllers.FRRK8sReconciler: UpdateConfig, debouncer goroutine, Reconcile (Get/CreateOrUpdate/Delete)": "real goroutines, one released at a time by the simulator",
+	"Kubernetes API server": "simulated (simk8s): every call a park point; write errors; external edits and deletes of the resource",
+	"controller-runtime channel source and worker": "harness tasks (receive generic events, de-duplicating queue, requeue with back-off)",
+	"frr-k8s": "frrk8sinterp: denotation of the FRRConfiguration + structural clauses",
+}
+
+var gfrrk8sAssume = []string{
+	"frr-k8s semantics as implemented by /verif/sim/frrk8sinterp; the same bgpmodel denotation is the reference for FRR mode (C14) and FRR-K8s mode (C15), which is how their agreement is decided",
+}
+
+const gfrrk8sRule = "FRR-K8s: 1-3 submitter tasks issue session operations (parameters incl. password or secret reference, advertisement sets, identical resubmissions, closes) at drawn times, the API server fails writes and the resource is edited or deleted externally; every configuration computed by the session manager is interpreted, every resource written is matched against the computed ones."
+
+func merge(a, b map[string]string) map[string]string {
+	m := map[string]string{}
+	for k, v := range a {
+		m[k] = v
+	}
+	for k, v := range b {
+		m[k] = v
+	}
+	return m
+}
+
 var gfrrAssume = []string{
 	"FRR semantics as implemented by /verif/sim/frrinterp (first matching prefix-list entry decides, implicit deny, route-map entries in sequence order, on-match next continues, additive communities accumulate)",
 	"'submitted' = handed to the debouncer's channel; the configuration applied by an attempt must be the latest handed-over one or one in flight at that moment",
@@ -119,8 +151,11 @@ var gfrrAssume = []string{
 const gfrrRule = "Each run draws the debounce and retry intervals, 1-3 submitter tasks issuing 2-11 session operations each (new sessions over several routers/VRFs with drawn parameters, advertisement sets over 7 prefixes with local preferences and standard/large communities, conflicting requests, identical resubmissions, closes, extra-info markers, BFD profiles) at drawn times, and fault kinds (signal failure, slow signal, FRR refusing a reload, failed and torn file writes); the scheduler draws every interleaving of submitters, debouncer, validator and reloader."
 
 func init() {
-	props = append(props, propDef{ID: "C19", Level: "exploration", Rule: gfrrRule, Assumptions: gfrrAssume, Components: gfrrComponents,
-		Batches: []batch{{Engine: "gfrr", Variant: "", Runs: 5000, RunsT: 80000, WallS: 170, WallST: 1500}}})
+	props = append(props, propDef{ID: "C19", Level: "exploration", Rule: gfrrRule + " " + gfrrk8sRule, Assumptions: gfrrAssume, Components: merge(gfrrComponents, gfrrk8sComponents),
+		Batches: []batch{{Engine: "gfrr", Variant: "", Runs: 5000, RunsT: 80000, WallS: 170, WallST: 1200},
+			{Engine: "gfrrk8s", Variant: "", Runs: 3000, RunsT: 50000, WallS: 100, WallST: 600, Note: "frr-k8s half: debouncer + reconciler delivery of the FRRConfiguration"}}})
+	props = append(props, propDef{ID: "C15", Level: "exploration", Rule: gfrrk8sRule, Assumptions: gfrrk8sAssume, Components: gfrrk8sComponents,
+		Batches: []batch{{Engine: "gfrrk8s", Variant: "", Runs: 5000, RunsT: 80000, WallS: 170, WallST: 1500}}})
 	props = append(props, propDef{ID: "C14", Level: "exploration", Rule: gfrrRule, Assumptions: gfrrAssume, Components: gfrrComponents,
 		Batches: []batch{{Engine: "gfrr", Variant: "", Runs: 5000, RunsT: 80000, WallS: 170, WallST: 1500}}})
 	for _, id := range []string{"C16", "C17"} {
@@ -142,4 +177,5 @@ var selftestVariants = map[string][]string{
 	"kspk": {""},
 	"gnative": {"", "openfuzz"},
 	"gfrr": {""},
+	"gfrrk8s": {""},
 }
